@@ -123,6 +123,21 @@ theorem current_pure_calls_change_nothing {g : Nat} {fd : FunDecl} {h h' : Heap}
     ∀ id, id < h.next → h'.obj id = h.obj id :=
   sound check_current hg hpure hw hv hex
 
+/-- "ill-typed … arguments are rejected with TypeError": for every public function with `isinstance`
+guards at its head, the Boolean formula it evaluates (extracted as written: `and` / `or` / `not`
+over "argument i is an instance of classes C") rejects every combination of argument classes in
+which some guarded argument has a class the guard does not name — it is the conjunction the signature
+requires, not a weaker formula — and accepts some combination.  Decided over all class combinations. -/
+theorem guards_current :
+    Current.guards.all (fun g => Pymeeus.Guards.guardOk g.2.1 g.2.2) = true := by
+  decide +kernel
+
+/-- The weaker formula of the defect fixed by commit 98cf229 (`and` written for `or`:
+`if not isinstance(epoch, Epoch) and not isinstance(tofk5, bool): raise TypeError`) is refused. -/
+example : Pymeeus.Guards.guardOk [1, 1] (.and (.not (.isa 0 [1])) (.not (.isa 1 [1]))) = false := by decide
+example : Pymeeus.Guards.guardOk [1, 1] (.or (.not (.isa 0 [1])) (.not (.isa 1 [1]))) = true := by decide
+example : Pymeeus.Guards.guardOk [1, 1] (.not (.and (.isa 0 [1]) (.isa 1 [1]))) = true := by decide
+
 /-! ### The analysis discriminates (the hypotheses above are not vacuous)
 
 Variables: 0 = first parameter, …; attribute 0 = `_deg`, attribute 1 = `_x`. -/
